@@ -32,7 +32,7 @@ API Reference
 import numpy as np
 import copy
 
-from stockpyl.helpers import change_dict_key, is_integer
+from stockpyl.helpers import change_dict_key, is_integer, is_dict, replace_dict_numeric_string_keys, replace_dict_null_keys
 
 
 # ===============================================================================
@@ -1352,32 +1352,37 @@ class NodeStateVars(object):
 		else:
 			nsv = NodeStateVars()
 
+			# JSON turns the (integer or None) keys of the state-variable dicts into strings ('-4', 'null');
+			# restore them so that a saved-and-reloaded object equals the original.
+			def _restore_keys(d):
+				return replace_dict_null_keys(replace_dict_numeric_string_keys(d)) if is_dict(d) else d
+
 			nsv.node = the_dict['node']
 			nsv.period = the_dict['period']
-			nsv.inbound_shipment_pipeline = copy.deepcopy(the_dict['inbound_shipment_pipeline'])
-			nsv.inbound_shipment = copy.deepcopy(the_dict['inbound_shipment'])
-			nsv.inbound_order_pipeline = copy.deepcopy(the_dict['inbound_order_pipeline'])
-			nsv.inbound_order = copy.deepcopy(the_dict['inbound_order'])
-			nsv.outbound_shipment = copy.deepcopy(the_dict['outbound_shipment'])
-			nsv.on_order_by_predecessor = copy.deepcopy(the_dict['on_order_by_predecessor'])
-			nsv.backorders_by_successor = copy.deepcopy(the_dict['backorders_by_successor'])
-			nsv.outbound_disrupted_items = copy.deepcopy(the_dict['outbound_disrupted_items'])
-			nsv.inbound_disrupted_items = copy.deepcopy(the_dict['inbound_disrupted_items'])
-			nsv.order_quantity = copy.deepcopy(the_dict['order_quantity'])
-			nsv.order_quantity_fg = copy.deepcopy(the_dict['order_quantity_fg'])
-			nsv.raw_material_inventory = copy.deepcopy(the_dict['raw_material_inventory'])
-			nsv.pending_finished_goods = copy.deepcopy(the_dict['pending_finished_goods'])
-			nsv.inventory_level = the_dict['inventory_level']
+			nsv.inbound_shipment_pipeline = _restore_keys(copy.deepcopy(the_dict['inbound_shipment_pipeline']))
+			nsv.inbound_shipment = _restore_keys(copy.deepcopy(the_dict['inbound_shipment']))
+			nsv.inbound_order_pipeline = _restore_keys(copy.deepcopy(the_dict['inbound_order_pipeline']))
+			nsv.inbound_order = _restore_keys(copy.deepcopy(the_dict['inbound_order']))
+			nsv.outbound_shipment = _restore_keys(copy.deepcopy(the_dict['outbound_shipment']))
+			nsv.on_order_by_predecessor = _restore_keys(copy.deepcopy(the_dict['on_order_by_predecessor']))
+			nsv.backorders_by_successor = _restore_keys(copy.deepcopy(the_dict['backorders_by_successor']))
+			nsv.outbound_disrupted_items = _restore_keys(copy.deepcopy(the_dict['outbound_disrupted_items']))
+			nsv.inbound_disrupted_items = _restore_keys(copy.deepcopy(the_dict['inbound_disrupted_items']))
+			nsv.order_quantity = _restore_keys(copy.deepcopy(the_dict['order_quantity']))
+			nsv.order_quantity_fg = _restore_keys(copy.deepcopy(the_dict['order_quantity_fg']))
+			nsv.raw_material_inventory = _restore_keys(copy.deepcopy(the_dict['raw_material_inventory']))
+			nsv.pending_finished_goods = _restore_keys(copy.deepcopy(the_dict['pending_finished_goods']))
+			nsv.inventory_level = _restore_keys(the_dict['inventory_level'])
 			nsv.disrupted = the_dict['disrupted']
 			nsv.holding_cost_incurred = the_dict['holding_cost_incurred']
 			nsv.stockout_cost_incurred = the_dict['stockout_cost_incurred']
 			nsv.in_transit_holding_cost_incurred = the_dict['in_transit_holding_cost_incurred']
 			nsv.revenue_earned = the_dict['revenue_earned']
 			nsv.total_cost_incurred = the_dict['total_cost_incurred']
-			nsv.demand_cumul = the_dict['demand_cumul']
-			nsv.demand_met_from_stock = the_dict['demand_met_from_stock']
-			nsv.demand_met_from_stock_cumul = the_dict['demand_met_from_stock_cumul']
-			nsv.fill_rate = the_dict['fill_rate']
+			nsv.demand_cumul = _restore_keys(the_dict['demand_cumul'])
+			nsv.demand_met_from_stock = _restore_keys(the_dict['demand_met_from_stock'])
+			nsv.demand_met_from_stock_cumul = _restore_keys(the_dict['demand_met_from_stock_cumul'])
+			nsv.fill_rate = _restore_keys(the_dict['fill_rate'])
 
 		return nsv
 
